@@ -798,8 +798,13 @@ def forged_proofs(key, alg, blob, other, rng):
         k = len(raw)
         nmod = key.public_numbers.n
         out += [("zero", b"\x00" * k), ("one", (1).to_bytes(k, "big")), ("n-minus-1", (nmod - 1).to_bytes(k, "big")),
-                ("n", nmod.to_bytes(k, "big")), ("length-minus-1", raw[1:]), ("length-plus-1", b"\x00" + raw),
+                ("n", nmod.to_bytes(k, "big")), ("length-minus-1-tail", raw[:-1]), ("length-plus-1", b"\x00" + raw),
                 ("length-plus-1-tail", raw + b"\x00"), ("all-ff", b"\xff" * k), ("truncated-half", raw[:k // 2])]
+    if not (isinstance(key, (paramiko.ECDSAKey, paramiko.Ed25519Key))) and raw[:1] != b"\x00":
+        # RSAKey.verify_ssh_sig left-pads a short signature with zeros (PuTTY sends them stripped), so dropping a
+        # LEADING zero byte is the same signature in another spelling, not a forgery (1 genuine signature in 256
+        # starts with 00): only a non-zero first byte may be dropped
+        out.append(("length-minus-1", raw[1:]))
     res = []
     for name, rawsig in out:
         if name == "from-another-key":
